@@ -141,6 +141,7 @@ mod imp {
             let original = std::mem::replace(&mut self.arena, copy);
             self.shadow = Some((original, ShadowKind::SerdeOrig));
             self.resync_serials();
+            self.obs_lookup(&mut out.viols);
         }
     }
 }
